@@ -30,6 +30,10 @@ pub struct Case {
     pub delete_v0: bool,
     pub backup_opts: Opts,
     pub random: Vec<Vec<(u8, u16)>>,
+    /// Renumber the existing versions so that the newest is b9999 (the backup then creates
+    /// b10000: five digits beside four).
+    #[serde(default)]
+    pub five_digit_ids: bool,
 }
 
 fn strategy(tier: Tier) -> BoxedStrategy<Case> {
@@ -42,8 +46,9 @@ fn strategy(tier: Tier) -> BoxedStrategy<Case> {
         prop::bool::weighted(0.8),
         scen::small_opts(),
         prop::collection::vec(prop::collection::vec((0u8..2, 1u16..15), 2..12), tier.pick(20, 200)),
+        prop::bool::weighted(0.25),
     )
-        .prop_map(|(g, opts, revenants, garbage_variant, edits, delete_v0, backup_opts, random)| Case {
+        .prop_map(|(g, opts, revenants, garbage_variant, edits, delete_v0, backup_opts, random, five_digit_ids)| Case {
             initial: g.build(opts),
             opts,
             revenants,
@@ -53,6 +58,7 @@ fn strategy(tier: Tier) -> BoxedStrategy<Case> {
             // mostly the same blocking as before, so that the revenants hash to the old blocks
             backup_opts: if backup_opts.hunk % 4 != 0 { Opts { hunk: backup_opts.hunk, ..opts } } else { backup_opts },
             random,
+            five_digit_ids,
         })
         .boxed()
 }
@@ -137,6 +143,19 @@ fn run(case: &Case, cx: &mut Cx) -> CaseResult {
     tree::rematerialise(&t_without, &t_new, &w.src);
     w.tree = t_new.clone();
 
+    if case.five_digit_ids {
+        // renumber: the newest existing version becomes b9999
+        let ids: Vec<u32> = format::scan(&w.arch).bands.keys().copied().collect();
+        let top = *ids.last().unwrap();
+        let shift = 9999 - top;
+        for id in ids.iter().rev() {
+            std::fs::rename(w.arch.join(format::band_dirname(*id)), w.arch.join(format::band_dirname(id + shift))).unwrap();
+        }
+        sources = sources.into_iter().map(|(k, v)| (k + shift, v)).collect();
+        for d in delete_ids.iter_mut() {
+            *d += shift;
+        }
+    }
     let pristine = cx.dir("pristine");
     scen::copy_dir(&w.arch, &pristine);
     let pre = format::scan(&pristine);
@@ -278,6 +297,7 @@ fn run(case: &Case, cx: &mut Cx) -> CaseResult {
     cx.label_if(hazard, "garbage-reappears-in-source");
     cx.label_if(case.garbage_variant.is_some(), "garbage-from-interrupted-backup");
     cx.label_if(!delete_ids.is_empty(), "deletes-a-version");
+    cx.label_if(case.five_digit_ids, "ids-cross-b9999");
     Ok(())
 }
 
@@ -285,7 +305,7 @@ pub fn prop() -> Prop<Case> {
     Prop {
         id: "C06",
         level: "exploration",
-        rule: "case = archive constructed so that the hazard exists: blocks that are garbage from the collector's point of view (referenced only by the version being deleted, or left by an interrupted backup) whose content reappears in the new source; actors G = delete_bands(S) / pure gc and B = backup(new source) on the same directory under the deterministic scheduler (exactly one storage operation in flight; an execution is a function of the schedule). Inner domain: switch points are derived from each actor's solo trace: 'all' brackets every lock-related, root-listing and mutating operation (capped at 10 quick / 60 thorough per actor), 'critical' is the handful around the lock test / lock write, band creation, first block write, the collector's re-check and its first deletions; every schedule with <=2 context switches over 'all' and every schedule with 3 switches over 'critical', in both starting orders, plus generated random schedules with up to 11 segments. Oracle: both actors return (Ok or Err, no panic); afterwards every version with a tail has, per the independent decoder, no address naming a missing block, and restores with no error to the tree it was made from. Non-trivial = hazard present and each actor performs >=1 operation between the other's lock check/lock write and its first mutation; schedules distinct by construction",
+        rule: "case = archive constructed so that the hazard exists: blocks that are garbage from the collector's point of view (referenced only by the version being deleted, or left by an interrupted backup) whose content reappears in the new source (in a quarter of the cases the versions are renumbered so that the backup creates b10000 beside b9999); actors G = delete_bands(S) / pure gc and B = backup(new source) on the same directory under the deterministic scheduler (exactly one storage operation in flight; an execution is a function of the schedule). Inner domain: switch points are derived from each actor's solo trace: 'all' brackets every lock-related, root-listing and mutating operation (capped at 10 quick / 60 thorough per actor), 'critical' is the handful around the lock test / lock write, band creation, first block write, the collector's re-check and its first deletions; every schedule with <=2 context switches over 'all' and every schedule with 3 switches over 'critical', in both starting orders, plus generated random schedules with up to 11 segments. Oracle: both actors return (Ok or Err, no panic); afterwards every version with a tail has, per the independent decoder, no address naming a missing block, and restores with no error to the tree it was made from. Non-trivial = hazard present and each actor performs >=1 operation between the other's lock check/lock write and its first mutation; schedules distinct by construction",
         assumptions: &[
             "interleaving granularity is one transport operation; storage is sequentially consistent",
             "switch points are restricted to operations bracketing lock, listing and mutating operations, so the <=3-switch space is covered where it can matter, not exhausted",
